@@ -264,6 +264,7 @@ pub struct Report {
     pub boxes: Vec<Value>,
     pub viols: Vec<Viol>,
     pub viol_total: u64,
+    pub classes: BTreeMap<String, u64>,
     pub assumptions: Vec<String>,
     pub extra: BTreeMap<String, Value>,
     pub exhaustive: bool,
@@ -286,13 +287,16 @@ impl Report {
             seed: std::env::var("VERIF_SEED").ok().and_then(|s| s.parse().ok()).unwrap_or(0),
             started: Instant::now(), evaluations: 0, transitions: 0, validated: 0,
             skipped: BTreeMap::new(), states: BTreeSet::new(), states_count_override: None, outcomes: BTreeMap::new(),
-            nontrivial: 0, rule: String::new(), samples: vec![], boxes: vec![], viols: vec![], viol_total: 0,
+            nontrivial: 0, rule: String::new(), samples: vec![], boxes: vec![], viols: vec![], viol_total: 0, classes: BTreeMap::new(),
             assumptions: vec![], extra: BTreeMap::new(), exhaustive: true, machinery_errors: vec![],
         }
     }
     pub fn thorough(&self) -> bool { self.tier == "thorough" }
     pub fn viol(&mut self, v: Viol) {
         self.viol_total += 1;
+        // class = key up to the last `|` (usually the rule without the word)
+        let class = v.key.rsplit_once('|').map(|x| x.0.to_string()).unwrap_or(v.key.clone());
+        if self.classes.len() < 300 || self.classes.contains_key(&class) { *self.classes.entry(class).or_insert(0) += 1; }
         // keep one representative per key, at most 400 keys
         if self.viols.len() < 400 && !self.viols.iter().any(|x| x.key == v.key) {
             self.viols.push(v);
@@ -356,6 +360,7 @@ impl Report {
         cov.insert("known_findings_matched".into(), json!(matched.iter().map(|(k, v)| json!({"id": k, "keys": v.1})).collect::<Vec<_>>()));
         cov.insert("violation_cases_total".into(), json!(self.viol_total));
         cov.insert("unlisted_violation_keys".into(), json!(unlisted.iter().map(|v| v.key.clone()).take(50).collect::<Vec<_>>()));
+        cov.insert("violation_classes".into(), json!(self.classes));
         cov.insert("machinery_errors".into(), json!(self.machinery_errors));
         for (k, v) in &self.extra { cov.insert(k.clone(), v.clone()); }
         let ev = json!({
